@@ -174,8 +174,8 @@ type regionRun struct {
 	ins      map[*ssa.BasicBlock][]edgeIn
 	headerOf map[*ssa.BasicBlock]*loopInfo
 	exits    *[]exitInfo
-	skipHdr  *loopInfo  // dry run of this loop: do not apply the loop rule at its own header
-	backs    *[]edgeIn  // dry run: states arriving at skipHdr's back edges
+	skipHdr  *loopInfo // dry run of this loop: do not apply the loop rule at its own header
+	backs    *[]edgeIn // dry run: states arriving at skipHdr's back edges
 	hdrState map[*loopInfo]*State
 }
 
